@@ -27,6 +27,8 @@ EXPLANATION = (
     "equivalence as an observed fact; R1-R5 are the necessary 'no shared mutable state is written, no "
     "ambient state is read' part."
 )
+TECHNIQUE += '; class-level mutable attribute scan'
+EXPLANATION += ' R3 also rejects mutable values in class-level attributes (shared by all instances).'
 TRUSTED = ["CPython ast parser", "module-level code runs once at import", "warnings.catch_warnings restores the filter state on exit"]
 
 AMBIENT = {
